@@ -2,7 +2,7 @@
 //!
 //! --mode formula : the real `pub` closed forms of actors/miner/src/{monies,policy}.rs on random and
 //!                  boundary inputs against `feval` of coq/Model/Penalty.v.
-//! --mode actor   : a REAL miner (created through Power::CreateMiner, creation deposit left in the vesting
+//! --mode actor   : (first the scripted witness history of finding F5, repaired in /repo 3e16ac9, as a regression) a REAL miner (created through Power::CreateMiner, creation deposit left in the vesting
 //!                  table) on the harness VM: sectors are pre-committed / proven, PoSts submitted (valid,
 //!                  invalid-optimistic, with skipped sectors) or missed, faults declared and recovered,
 //!                  sectors terminated, PoSts disputed, consensus faults reported, block rewards with
@@ -846,6 +846,10 @@ fn observe_inv(
         } else if kind == "cron_deadline" || kind == "cron_early_term" {
             fails.push(("deadline-cron-failed".into(), format!("{} failed with {} without an injected failure", kind, codev)));
         }
+    }
+    // a handler that aborts because the balance invariants broke has mis-accounted (e.g. paid out of collateral)
+    if !ok && codev == ERR_BALANCE_INVARIANTS_BROKEN.value() {
+        fails.push(("handler-aborted-balance-invariants".into(), format!("{} aborted with ERR_BALANCE_INVARIANTS_BROKEN", kind)));
     }
     if !ok && ctx.injected && (kind == "cron_deadline" || kind == "cron_early_term") {
         CLAIM_LOSS_EXPLAINED.with(|c| *c.borrow_mut() = true);
